@@ -19,6 +19,8 @@ import traceback
 VERIF = os.path.dirname(os.path.dirname(os.path.abspath(__file__)))
 sys.path.insert(0, VERIF)
 REPO_DIR = os.environ.get("PYVC_REPO", "/repo")
+# runs against a scratch copy of the repository (mutation self-test) keep their outputs in the scratch work directory
+OUT_DIR = os.environ.get("PYVC_WORK") if (os.environ.get("PYVC_REPO") and os.environ.get("PYVC_WORK")) else None
 sys.path.insert(0, REPO_DIR)
 
 from pyvc import smt, run  # noqa: E402
@@ -110,7 +112,7 @@ def main(argv=None):
     known = load_known(pid)
     violations, undecided, errors, known_hits = [], [], [], []
     searched = {}
-    os.makedirs(os.path.join(VERIF, "replays", pid), exist_ok=True)
+    os.makedirs(os.path.join(OUT_DIR or VERIF, "replays", pid), exist_ok=True)
     for it in items:
         if it.verdict == "refuted":
             rep = {"property": pid, "obligation": it.name, "backend": it.backend, "where": it.where,
@@ -132,7 +134,7 @@ def main(argv=None):
                     rep["replay"] = out
                     confirmed = out.get("confirmed")
             rep["rerun"] = f"./check {pid} --replay replays/{pid}/{safe(it.name)}.json"
-            path = os.path.join(VERIF, "replays", pid, safe(it.name) + ".json")
+            path = os.path.join(OUT_DIR or VERIF, "replays", pid, safe(it.name) + ".json")
             with open(path, "w") as f:
                 json.dump(rep, f, indent=1, default=str)
             it.replay_path = path
@@ -161,7 +163,7 @@ def main(argv=None):
                 rep = {"property": pid, "obligation": it.name, "backend": it.backend, "verifier_output": it.detail[:1500],
                        "native_search_witness": w,
                        "rerun": f"./check {pid}"}
-                path = os.path.join(VERIF, "replays", pid, safe(it.name) + ".json")
+                path = os.path.join(OUT_DIR or VERIF, "replays", pid, safe(it.name) + ".json")
                 with open(path, "w") as f:
                     json.dump(rep, f, indent=1, default=str)
                 it.replay_path = path
@@ -291,8 +293,8 @@ def write_evidence(pid, tier, seed, mod, items, violations, known_hits, wall, re
                                          "detail; every enumerated case is distinct by construction"),
             "explanation": getattr(mod, "RULE", ""),
         })
-    os.makedirs(os.path.join(VERIF, "evidence"), exist_ok=True)
-    with open(os.path.join(VERIF, "evidence", f"{pid}.json"), "w") as f:
+    os.makedirs(os.path.join(OUT_DIR or VERIF, "evidence"), exist_ok=True)
+    with open(os.path.join(OUT_DIR or VERIF, "evidence", f"{pid}.json"), "w") as f:
         json.dump(ev, f, indent=1, default=str)
 
 
